@@ -20,10 +20,11 @@ def main():
     names = sys.argv[1:] or sorted(d for d in os.listdir(base) if os.path.isdir(f"{base}/{d}"))
     tag = os.getpid()
     wt, snap = f"/tmp/wt_harmless_{tag}", f"/tmp/vf_hsnap_{tag}"
-    sh(f"git -C /repo worktree add -q --detach {wt} HEAD")
+    sh(f"flock /tmp/.verif_worktree.lock git -C /repo worktree add -q -f --detach {wt} HEAD")
     sh(f"rsync -a --exclude .git --exclude .venv --exclude evidence --exclude replays --exclude __pycache__ {VERIF}/ {snap}/")
     os.symlink(f"{VERIF}/.venv", f"{snap}/.venv")
-    out = json.load(open(f"{base}/RESULTS.json")) if os.path.exists(f"{base}/RESULTS.json") else {}
+    res_path = os.environ.get("HARMLESS_OUT") or f"{base}/RESULTS.json"  # (HARMLESS_OUT: groups run side by side)
+    out = json.load(open(res_path)) if os.path.exists(res_path) else {}
     all_props = os.environ.get("ALL_CHECKS") == "1"
     try:
         for s in names:
@@ -46,11 +47,11 @@ def main():
                 sh(f"git -C {wt} checkout -- .")
             rec["silent"] = rec["applies"] and all(c["exit"] == 0 and not c["violations"] for c in rec["checks"].values())
             out[s] = rec
-            json.dump(out, open(f"{base}/RESULTS.json", "w"), indent=1, sort_keys=True)
+            json.dump(out, open(res_path, "w"), indent=1, sort_keys=True)
             print(s, "silent" if rec["silent"] else "ALARM", {p: (c["exit"], len(c["violations"]), len(c["proof_lost"]))
                                                             for p, c in rec["checks"].items()}, flush=True)
     finally:
-        sh(f"git -C /repo worktree remove --force {wt}")
+        sh(f"flock /tmp/.verif_worktree.lock git -C /repo worktree remove --force {wt}")
         sh(f"rm -rf {snap}")
 
 
